@@ -287,7 +287,23 @@ fn run_plan(cx: &Cx, plan: &[StepPlan], eof: bool, benign: (bool, u64, bool)) ->
             w.zero_fired = false;
             (w.ops.len(), w.written.len(), w.pos, fail_abs)
         };
-        let r = bus.process_message(st.m.clone());
+        // data chunks are handed over the way `Sign::send_pages` hands them over half of the time: the
+        // payload BORROWED from the caller's buffer (`Cow::Borrowed`), not owned by the message
+        let borrowed_buf: Vec<u8>;
+        let msg: Message<'_> = match &st.m {
+            Message::SendData(off, d) if (off.0 as usize + d.get().len()) % 2 == 0 => {
+                borrowed_buf = d.get().to_vec();
+                match flipdot_core::Data::try_new(&borrowed_buf[..]) {
+                    Ok(b) => {
+                        cx.probe("data_chunk_with_borrowed_payload");
+                        Message::SendData(*off, b)
+                    }
+                    Err(_) => st.m.clone(),
+                }
+            }
+            other => other.clone(),
+        };
+        let r = bus.process_message(msg);
         let mut w = shared.lock();
         let zero_fired = std::mem::take(&mut w.zero_fired);
         w.zero_at = None;
@@ -330,7 +346,13 @@ fn judge_step(cx: &Cx, i: usize, st: &StepPlan, lg: &StepLog, eof: bool, known: 
             _ => false,
         });
         if let Some(k) = failed_at {
-            if k + 1 < lg.ops.len() {
+            // (further READS after a failed READ are let through: draining the rest of the reply line before
+            // returning the error takes nothing that is not this exchange's and keeps to the letter of the
+            // property; what must not happen is that anything is WRITTEN after a failure, or that the bus
+            // goes on to read a reply after it failed to send the request)
+            let failed_was_write = matches!(lg.ops[k], PortOp::Write { .. });
+            let offending = lg.ops[k + 1..].iter().any(|o| failed_was_write || matches!(o, PortOp::Write { .. }));
+            if k + 1 < lg.ops.len() && offending {
                 let after = &lg.ops[k + 1..];
                 let wrote: usize = after.iter().map(|o| if let PortOp::Write { bytes, .. } = o { bytes.len() } else { 0 }).sum();
                 cx.fail(
@@ -633,6 +655,20 @@ impl Scenario for C18 {
                     0 => Message::ReportState(gens::address(cx), *cx.pick(&[State::PageLoadInProgress, State::PageShowInProgress])),
                     1 => Message::ReportState(gens::address(cx), gens::ALL_STATES[cx.draw(13) as usize]),
                     2 => Message::AckOperation(gens::address(cx), gens::ALL_OPS[cx.draw(6) as usize]),
+                    _ if cx.chance(1, 3) => {
+                        // a near miss of an in-progress report: the same frame with one byte more, or under
+                        // another message type -- it decodes to something else and is not paced
+                        cx.probe("near_miss_of_an_in_progress_report");
+                        let f = Frame::from(Message::ReportState(gens::address(cx), *cx.pick(&[State::PageLoadInProgress, State::PageShowInProgress])));
+                        let mut d = f.data().to_vec();
+                        let mut ty = f.message_type().0;
+                        if cx.chance(1, 2) {
+                            d.push(cx.draw(256) as u8);
+                        } else {
+                            ty = (ty + 1 + cx.draw(6) as u8) % 8;
+                        }
+                        to_static(&Message::from(Frame::new(f.address(), flipdot_core::MsgType(ty), gens::data(d))))
+                    }
                     _ => Message::Unknown(gens::unknown_frame(cx)),
                 };
                 if !long_poll && cx.chance(1, 12) {
